@@ -48,6 +48,12 @@ energy_budget(eos, Tn, vw, m)                Int (T^00 - e_n) xi^2 d xi over the
                                              exact zero for an exact solution with both front conditions
                                              (validation only)
 closed forms for validation                  bag_vJ, template_vJ, bag_vp_of_vm, espinosa_kappa
+entropy_mismatch(vp, vm, Tp, Tm)             (T+ g+ - T- g-)/(T+ g+), the LTE condition (C05)
+deton_vp / deton_vm(eos, Tn, Tm)             the detonation adiabat v+(T-), v-(T-) at T+ = Tn
+jouguet_by_minimisation(eos, Tn)             (vJ, TmJ) as min over T- of deton_vp: second, independent
+                                             characterisation of the Chapman-Jouguet point (C06)
+min_velocity(eos, Tn, Tm_floor)              smallest wall speed with a deflagration (strongest shock, v+ = 0) (C15)
+lte_root(eos, Tn, lo, hi, guess)             wall speed at which the Tn-matched flow conserves entropy (C05, C15)
 
 `python -m vlib.refhydro` runs the validation against these closed forms and prints a table.
 """
@@ -1089,6 +1095,152 @@ def energy_budget(eos, Tn, vw, m):
     else:
         tot += eos.eb(m.Tm) * vw ** 3 / 3.0
     return (tot - en * xi_max ** 3 / 3.0) / (wn * xi_max ** 3 / 3.0)
+
+
+# ---------------------------------------------------------------------------------------------
+# additions for C05 / C06 / C15 (entropy mismatch, detonation adiabat, minimal velocity, LTE root)
+# ---------------------------------------------------------------------------------------------
+def entropy_mismatch(vp, vm, Tp, Tm):
+    """S/(T+ gamma+) with S = T+ gamma+ - T- gamma-  (zero in local thermal equilibrium)."""
+    a, b = Tp / math.sqrt(1.0 - vp * vp), Tm / math.sqrt(1.0 - vm * vm)
+    return (a - b) / a
+
+
+def deton_vp(eos, Tn, Tm):
+    """v+ on the detonation adiabat (T+ = Tn) as a function of T-, from the two flux equations:
+    v+ v- = (p_s - p_b)/(e_s - e_b),  v+/v- = (e_b + p_s)/(e_s + p_b).  NaN where no real solution."""
+    eos = as_eos(eos)
+    ps, es = eos.ps(Tn), eos.es(Tn)
+    pb, eb = eos.pb(Tm), eos.eb(Tm)
+    den = (es - eb) * (es + pb)
+    if den == 0.0:
+        return float("nan")
+    x = (ps - pb) * (eb + ps) / den
+    return math.sqrt(x) if x >= 0.0 else float("nan")
+
+
+def deton_vm(eos, Tn, Tm):
+    """v- on the detonation adiabat (companion of deton_vp)."""
+    eos = as_eos(eos)
+    ps, es = eos.ps(Tn), eos.es(Tn)
+    pb, eb = eos.pb(Tm), eos.eb(Tm)
+    den = (es - eb) * (eb + ps)
+    if den == 0.0:
+        return float("nan")
+    x = (ps - pb) * (es + pb) / den
+    return math.sqrt(x) if x >= 0.0 else float("nan")
+
+
+def jouguet_by_minimisation(eos, Tn):
+    """(vJ, TmJ) as the minimum over T- of the detonation v+(T-): an independent characterisation of
+    the Chapman-Jouguet point (chapman_jouguet uses v- = c_b on the momentum-conserving line).
+    The detonation part of the adiabat starts where e_b(T-) = e_s(Tn) (v+ -> infinity)."""
+    eos = as_eos(eos)
+    es = eos.es(Tn)
+    floor = max(1e-6 * Tn, eos.Tfloor)
+    if eos.eb(floor) >= es:
+        Te = floor
+    else:
+        Te = _root_increasing(eos.eb, Tn, es, floor, 1e4 * Tn, "adiabat-start")
+    # geometric scan for the first local minimum of v+ above Te
+    prev_T, prev_v = None, float("inf")
+    T = Te * (1.0 + 1e-9)
+    step = 1e-3
+    pts = []
+    for _ in range(4000):
+        v = deton_vp(eos, Tn, T)
+        pts.append((T, v))
+        if v == v and prev_v == prev_v and v > prev_v and len(pts) >= 3:
+            break
+        if v == v:
+            prev_T, prev_v = T, v
+        T *= 1.0 + step
+        step = min(step * 1.15, 0.05)
+        if T > 1e4 * Tn:
+            raise RefFailure("vJ-min:no-minimum")
+    else:
+        raise RefFailure("vJ-min:no-minimum")
+    a, b = pts[-3][0], pts[-1][0]
+    # golden-section on v+^2 (smooth, unimodal on [a, b])
+    gr = (math.sqrt(5.0) - 1.0) / 2.0
+    c, d = b - gr * (b - a), a + gr * (b - a)
+    fc, fd = deton_vp(eos, Tn, c), deton_vp(eos, Tn, d)
+    for _ in range(200):
+        if not (fc == fc and fd == fd):
+            raise RefFailure("vJ-min:nan")
+        if fc < fd:
+            b, d, fd = d, c, fc
+            c = b - gr * (b - a)
+            fc = deton_vp(eos, Tn, c)
+        else:
+            a, c, fc = c, d, fd
+            d = a + gr * (b - a)
+            fd = deton_vp(eos, Tn, d)
+        if b - a < 1e-9 * b:
+            break
+    Tm = 0.5 * (a + b)
+    return min(fc, fd, deton_vp(eos, Tn, Tm)), Tm
+
+
+def min_velocity(eos, Tn, Tm_floor=0.0):
+    """(vmin, dTn'/dvw, Tp): smallest wall speed for which a deflagration reaches Tn ahead of the front.
+    The strongest shock has v+ = 0: no energy flux through the wall, so p_s(T+) = p_b(Tm_floor)
+    (Tm_floor = 0: the exact limit, p_b = 0 for the zoo's template-form EOS; WallGo.Hydrodynamics uses
+    Tm_floor = TMinHydro).  Returns vmin = 0.0 if even the slowest wall has Tn' < Tn ... i.e. no minimum."""
+    eos = as_eos(eos)
+    target = eos.pb(Tm_floor) if Tm_floor > 0.0 else 0.0
+    if eos.ps(Tn) <= target:
+        return 0.0, None, None  # T+ >= Tn cannot satisfy p_s(T+) = target: every speed is allowed
+    floor = max(1e-9 * Tn, eos.Tfloor)
+    if eos.ps(floor) >= target:
+        raise RefFailure("vmin:Tp-below-floor")
+    Tp = brentq(lambda T: eos.ps(T) - target, floor, Tn, xtol=1e-300, rtol=4 * np.finfo(float).eps, maxiter=300)
+
+    def f(vw):
+        sh = integrate_shock(eos, vw, 0.0, Tp, want_kappa=False)
+        if not sh.ok:
+            raise RefFailure(f"vmin-shock:{sh.reason}")
+        return sh.Tn_out - Tn
+
+    lo, hi = 1e-6, math.sqrt(eos.cs2(Tp)) * (1.0 - 1e-9)
+    flo, fhi = f(lo), f(hi)
+    if flo * fhi > 0:
+        raise RefFailure("vmin:no-bracket")
+    vmin = brentq(f, lo, hi, xtol=1e-300, rtol=1e-13, maxiter=200)
+    h = 1e-5 * vmin
+    slope = (f(vmin + h) - f(vmin - h)) / (2 * h)
+    return vmin, slope, Tp
+
+
+def lte_root(eos, Tn, lo, hi, guess=None, xtol_rel=1e-12):
+    """Wall speed in [lo, hi] at which the Tn-matched deflagration/hybrid has T+ gamma+ = T- gamma-.
+    Returns (v, matching at v) or raises RefFailure (no sign change / matcher failure)."""
+    eos = as_eos(eos)
+    last = {}
+
+    def g(v):
+        m = match_deflag(eos, Tn, v, hint_vp=last.get("vp"))
+        if not m.ok:
+            raise RefFailure(f"lte:{m.reason}")
+        last["vp"] = m.vp  # only a work-saving hint for the next call
+        last["m"] = m
+        return entropy_mismatch(m.vp, m.vm, m.Tp, m.Tm)
+
+    if guess is not None and lo < guess < hi:
+        w = 1e-4 * guess
+        a, b = max(lo, guess - w), min(hi, guess + w)
+        ga, gb = g(a), g(b)
+        if ga * gb > 0:
+            a, b = lo, hi
+            ga, gb = g(a), g(b)
+    else:
+        a, b = lo, hi
+        ga, gb = g(a), g(b)
+    if ga * gb > 0:
+        raise RefFailure("lte:no-sign-change")
+    v = brentq(g, a, b, xtol=1e-300, rtol=xtol_rel, maxiter=200)
+    g(v)
+    return v, last["m"]
 
 
 # ---------------------------------------------------------------------------------------------
